@@ -298,7 +298,9 @@ class OnlineVariance(object):
                     average += avg*cnt
         average/=size
         #print('AVERGAE',average)
-        counts = np.array(counts) * size/np.sum(counts)
+        # (multiplying by size/np.sum(counts) == 1 here used to underflow to
+        # zero for negligible weights and drop every rank)
+        counts = np.array(counts)
 
         squares = None
 
